@@ -18,8 +18,11 @@ CHECKS = {
              "import relation of a bounded world that it equals the documentation's table, then every state TLC "
              "emits is replayed into real Rule objects with the full single-subject/object rule space and every "
              "evaluation (plus seeded random larger worlds with batches) is validated event by event against the "
-             "specification. Exhaustive for the bounded worlds, sampling judged by the model beyond.",
-        design_ref="6 (C01)"),
+             "specification. 'Sub modules of P' are P's strict descendants in both directions (an import between one of them "
+             "and P itself is an import of/by something else - no don't-care corner is left in the oracle). Architectures' "
+             "own hierarchy edges are observed and must be the parent/child relation of the names. Exhaustive for the "
+             "bounded worlds, sampling judged by the model beyond.",
+        design_ref="6 (C01), 14"),
     "C03": dict(
         technique="TLA+ specification (RuleSem!Realised/MissingEdge/MissingOther) with TLC; messages of real failing "
                   "evaluations and the three graph queries parsed and validated as sets against the specification",
@@ -27,7 +30,8 @@ CHECKS = {
              "sets of reported imports and missing-import lines; the trace specification compares them, in both "
              "directions of inclusion, with the violating sets the specification derives, for every import relation "
              "of a bounded world x the full single rule space and for seeded random larger worlds with batches; the "
-             "get_dependencies / any_dependencies... queries are validated directly against EdgeSet/OtherSet.",
+             "get_dependencies / any_dependencies... queries are validated directly against EdgeSet/OtherSet (strictly, also "
+             "for imports between 'sub modules of P' and P itself).",
         design_ref="6 (C03)"),
     "C11": dict(
         technique="TLA+ trace specification with TLC: compact (regex / partial-name / batch) and expanded rules are "
@@ -52,8 +56,10 @@ CHECKS = {
              "the real code returned.",
         design_ref="6 (C12), 13.3"),
     "C13": dict(
-        technique="TLA+ builder automata (Builders.tla) explored by TLC with a history variable; every emitted call "
-                  "history replayed on fresh real objects and validated call by call against the automata with TLC",
+        technique="TLA+ builder automata (Builders.tla) explored by TLC with a history variable, and closed under histories "
+                  "of any length with VIEW = automaton state; every emitted call history, every state and every transition "
+                  "of the closed automata replayed on fresh real objects and validated call by call against the automata "
+                  "with TLC",
         text="Rule, LayerRule and DiagramRule are automata with one action per fluent call; TLC enumerates every call "
              "history up to a bound (plus tlc -simulate behaviours of length 7 and every deletion / duplication / "
              "transposition of every complete chain), each is replayed on the real classes and closed with "
@@ -62,8 +68,11 @@ CHECKS = {
              "random architectures and on level-limited scans, badly tagged diagram files (no tags, start only, end only, "
              "reversed), all well-shaped LayerRule chains and their single-call mutations, diagrams naming a component that is no module (on "
              "architectures that also violate the rest of the diagram) and all 64 entry-point option combinations are "
-             "validated the same way.",
-        design_ref="6 (C13)"),
+             "validated the same way. With VIEW = automaton state TLC finds every reachable state of the three automata "
+             "(model-level invariants then hold for histories of any length); every state is replayed by a shortest "
+             "history and every transition as 'shortest history + one call', once on a fresh object and once on an object "
+             "that was evaluated in the state before the call.",
+        design_ref="6 (C13), 13.3"),
     "C16": dict(
         technique="TLA+ builder automata (Builders!ArchStep, LRuleStep) model-checked with TLC (well-formedness "
                   "invariants) and every emitted call history replayed on the real builders, observed definition "
@@ -76,7 +85,9 @@ CHECKS = {
              "histories up to six calls, plus a name that differs from another by a trailing blank only) covers guards that "
              "must look at every earlier layer; LayerRule histories likewise (architecture first, exactly one subject "
              "layer), plus all well-shaped chains (every verb x access kind x object layer list); after every LayerRule call "
-             "and evaluation the definition of the architecture it is based on is observed and must be unchanged.",
+             "and evaluation the definition of the architecture it is based on is observed and must be unchanged. Every state "
+             "and every transition of the complete LayeredArchitecture and LayerRule automata (TLC with VIEW = automaton "
+             "state: histories of any length) is replayed as well.",
         design_ref="6 (C16)"),
     "C05": dict(
         technique="TLA+ specification of layer semantics (LayerSem.tla) model-checked with TLC, its structural laws "
@@ -130,7 +141,8 @@ CHECKS = {
              "are abstracted independently of pytestarch (os.walk + ast) and validated by the same trace specification.",
         design_ref="6 (C02)"),
     "C04": dict(
-        technique="TLA+ specification of scanning (Scan!InternalMods, RestrictArch) with the sub-scan / restriction and "
+        technique="Graph.tla (construction algorithm, every processing order, TLC) bound to the real graph builder; "
+                  "TLA+ specification of scanning (Scan!InternalMods, RestrictArch) with the sub-scan / restriction and "
                   "entry-point laws model-checked on MC_Scan; every emitted project and seeded random trees are written "
                   "to disk, scanned through both entry points with every module_path, validated by Trace_Scan.tla",
         text="Modules = one per non-excluded .py file and directory at or below module_path, named from root_path's "
@@ -139,7 +151,12 @@ CHECKS = {
              "resolve in the sub scan. Each emitted project x every module_path x both entry points, and seeded random trees "
              "(depth <= 5, with and without __init__.py, prefix siblings, odd file names) are scanned by the real code; "
              "module set, import set, the restrict law, the entry-point law and 'sub modules of' verdicts are validated; "
-             "likewise for real source trees found on this machine (abstracted with os.walk + ast, harness/wild.py).",
+             "likewise for real source trees found on this machine (abstracted with os.walk + ast, harness/wild.py). The "
+             "architecture's own hierarchy edges are observed and must be the parent/child relation of the names; a root "
+             "directory reached through a symbolic link named differently from its target is part of the inputs. Graph.tla "
+             "models the construction of the architecture from the module and import lists as an algorithm (one action per "
+             "list element, every processing order explored by TLC) and is bound to the real graph builder by replay and "
+             "trace validation (Trace_Graph).",
         design_ref="6 (C04)"),
     "C08": dict(
         technique="TLA+ glob semantics (Glob!GlobMatch, character level) model-checked and compared exhaustively with "
@@ -156,7 +173,8 @@ CHECKS = {
              "matching sub trees disappear' law are validated - also on real source trees found on this machine.",
         design_ref="6 (C08)"),
     "C09": dict(
-        technique="Scan!Quotient; TLC proves on MC_Scan that the quotient preserves the verdict of every strict rule above "
+        technique="Graph!QuotientOfUnlimited (limit applied during construction, every processing order, TLC) bound to the real "
+                  "graph builder; Scan!Quotient; TLC proves on MC_Scan that the quotient preserves the verdict of every strict rule above "
                   "the limit (and refutes the unrestricted law); pairs of real scans (level_limit None vs k) and the "
                   "verdicts of rules on both are related by law events validated by Trace_Scan.tla",
         text="The level-limited architecture must equal the unlimited one with every name truncated to len(module_path)+k "
@@ -164,7 +182,10 @@ CHECKS = {
              "random projects are scanned with k in 1..depth (and beyond) at module_path equal to and below the root, with "
              "and without externals and exclusions (also imports of excluded modules); the trace specification checks the limited scan against the quotient of the unlimited "
              "scan and that strict rules whose names lie above the limit have the same verdict on both; directory names with "
-             "non-word characters and real source trees found on this machine are part of the inputs.",
+             "non-word characters and real source trees found on this machine are part of the inputs. The hierarchy edges of "
+             "the limited architecture are observed too. Graph.tla applies the limit while building, as the code does: TLC "
+             "checks in every processing order that the limited build is the quotient of the unlimited one, and the real "
+             "builder is compared with it (replay + Trace_Graph).",
         design_ref="6 (C09)"),
     "C10": dict(
         technique="Scan!ExternalMods / ExternalImports / InternalPart with the internal-part law model-checked on MC_Scan; "
@@ -206,7 +227,9 @@ CHECKS = {
              "Permuted / duplicated subject, object, layer and exclusion lists, shuffled directory enumeration and re-scans "
              "are related by 'same' laws; the same rules, layer rules, visualize calls and scans are run in two orders "
              "and compared call by call; graph construction is compared between shuffled listings of the same modules "
-             "and imports; and a mixed bag of episodes is run in fresh interpreters under 8 PYTHONHASHSEED values whose "
+             "and imports - and through Graph.tla, in which TLC explores EVERY processing order of the module and import "
+             "lists against an order-free result, the real builder being compared with it in several orders; layer rules "
+             "are evaluated with every list argument reversed; and a mixed bag of episodes is run in fresh interpreters under 8 PYTHONHASHSEED values whose "
              "traces must be identical. Trees in which a directory is a symbolic link to another one, and real source trees "
              "found on this machine, are re-scanned under shuffled enumeration.",
         design_ref="6 (C15)"),
